@@ -184,6 +184,26 @@ impl EncodingFile {
 
         Ok(ekey_pages)
     }
+    /// verif hook: calls the private `parse_ckey_pages` (compiled only under the Kani compiler).
+    #[cfg(kani)]
+    pub fn verif_parse_ckey_pages(
+        cursor: &mut Cursor<&[u8]>,
+        header: &EncodingHeader,
+        ckey_index: &[IndexEntry],
+    ) -> Result<Vec<Page<CKeyPageEntry>>, EncodingError> {
+        Self::parse_ckey_pages(cursor, header, ckey_index)
+    }
+
+    /// verif hook: calls the private `parse_ekey_pages` (compiled only under the Kani compiler).
+    #[cfg(kani)]
+    pub fn verif_parse_ekey_pages(
+        cursor: &mut Cursor<&[u8]>,
+        header: &EncodingHeader,
+        ekey_index: &[IndexEntry],
+    ) -> Result<Vec<Page<EKeyPageEntry>>, EncodingError> {
+        Self::parse_ekey_pages(cursor, header, ekey_index)
+    }
+
     /// Parse encoding file from BLTE-compressed data
     pub fn parse_blte(data: &[u8]) -> Result<Self, EncodingError> {
         // First decompress BLTE
